@@ -2,12 +2,12 @@
 (* Bounded scenario sets for Framing.tla.                                                                *)
 (*   PA   : alphabet of payload texts               LP : their maximal length                            *)
 (*   HA   : alphabet of hostile byte strings        LH : their maximal length                            *)
-(*   LP2  : maximal payload length of the second message of a two-message stream                         *)
+(*   LP1, LP2 : maximal payload lengths of the first / second message of a two-message stream             *)
 (*   LHR  : maximal length of the unstructured hostile strings of the header framing                      *)
 (* A message text is  Pre . payload . "}"  (an envelope object around the payload, so that brackets and  *)
 (* quotes of the payload are nested one level deep, as in a real JSON-RPC message).                      *)
 EXTENDS Framing
-CONSTANTS PA, LP, LP2, HA, LH, LHR, Pre, Kinds
+CONSTANTS PA, LP, LP1, LP2, HA, LH, LHR, Pre, Kinds
 
 Strs(A, n) == UNION {[1..k -> A] : k \in 0..n}
 Payloads(n) == {p \in Strs(PA, n) : Len(p) > 0 /\ ValidJson(p, 1, Len(p))}
@@ -51,19 +51,19 @@ PktTwo(p, q) ==
 
 WellFormed ==
   (IF "raw" \in Kinds THEN {RawOne(p, g) : p \in Payloads(LP), g \in Glues}
-                           \cup {RawTwo(p, g, q) : p \in Payloads(LP), g \in Glues, q \in Payloads(LP2)} ELSE {})
+                           \cup {RawTwo(p, g, q) : p \in Payloads(LP1), g \in Glues, q \in Payloads(LP2)} ELSE {})
   \cup (IF "header" \in Kinds THEN {HdrOne(p) : p \in Payloads(LP)}
-                           \cup {HdrTwo(p, q) : p \in Payloads(LP), q \in Payloads(LP2)} ELSE {})
+                           \cup {HdrTwo(p, q) : p \in Payloads(LP1), q \in Payloads(LP2)} ELSE {})
   \cup (IF "packet" \in Kinds THEN {PktTwo(p, q) : p \in Payloads(LP), q \in Payloads(LP2)} ELSE {})
 
 (* ---- hostile streams ------------------------------------------------------------------------------- *)
-(* raw: every byte string over HA up to LH, bare and inside the envelope; optionally followed by a good message *)
+(* raw: every byte string over HA up to LH, bare (followed by a good message) and inside the envelope *)
 Good == Text(<<D1>>)
 RawHostile ==
-  {Sc("raw", h, <<>>, FALSE, <<>>, <<It("t", <<>>, h)>>, 1..Len(h)) : h \in Strs(HA, LH) \ {<<>>}}
-  \cup {Sc("raw", Text(h) \o Good, <<>>, FALSE, <<>>, <<It("t", <<>>, Text(h)), It("t", <<>>, Good)>>, Around(Len(Pre) + 1, Len(Pre) + Len(h) + 1)) : h \in Strs(HA, LH)}
+  {Sc("raw", h \o Good, <<>>, FALSE, <<>>, <<It("t", <<>>, h), It("t", <<>>, Good)>>, 1..(Len(h) + 1)) : h \in Strs(HA, LH) \ {<<>>}}
+  \cup {Sc("raw", Text(h), <<>>, FALSE, <<>>, <<It("t", <<>>, Text(h))>>, Around(Len(Pre) + 1, Len(Pre) + Len(h) + 1)) : h \in Strs(HA, LH)}
 PktHostile ==
-  {Sc("packet", h \o Good, <<Len(h), Len(h) + Len(Good)>>, FALSE, <<>>, <<It("t", <<>>, h), It("t", <<>>, Good)>>, {}) : h \in Strs(HA, LH) \ {<<>>}}
+  {Sc("packet", h \o Good, <<Len(h), Len(h) + Len(Good)>>, FALSE, <<>>, <<It("t", <<>>, h), It("t", <<>>, Good)>>, {}) : h \in Strs(HA, LH - 1) \ {<<>>}}
 
 (* header: good or bad magic, length fields 0, exact, exact-1, exact+1, 2^16, 2^31, 2^32-7 .. 2^32-1 as (hi, lo) limbs *)
 HTexts == {<<>>, <<LB, RB>>, <<LB>>, <<LS, D1, RS>>, <<LB, RB, LB, RB>>, <<QT, BS, QT>>}
